@@ -400,6 +400,12 @@ async fn open_inner(case: &Case, ctl: &Ctl) -> Result<HCache, String> {
         2 => Compression::Lz4,
         _ => Compression::None,
     };
+    // StoreBuilder::with_compression never reaches the block engine at this commit (every entry is written
+    // uncompressed); the guarded hook sets the engine's algorithm directly. `comp_real` is set for every generated
+    // case; replay files recorded before the hook existed lack it and keep their behaviour.
+    if case.get("comp_real") != 0 {
+        engine = engine.verif_with_compression(compression);
+    }
     let b = HybridCacheBuilder::new()
         .with_event_listener(Arc::new(HybListener))
         .with_policy(policy)
